@@ -9,6 +9,8 @@ def gen(rng, kind, n, m):
     if kind == 'tall': X = rng.normal(size=(n, m))
     elif kind == 'wide': X = rng.normal(size=(m + 1, 2 * m + 1))
     elif kind == 'rankdef': X = rng.normal(size=(n, max(1, m // 2))) @ rng.normal(size=(max(1, m // 2), m))
+    elif kind == 'rankdef-large': X = 1e6 * (rng.normal(size=(n, max(1, m // 2))) @ rng.normal(size=(max(1, m // 2), m)))      # the rank cut must be relative to the scale of the data
+    elif kind == 'rankdef-small': X = 1e-6 * (rng.normal(size=(n, max(1, m // 2))) @ rng.normal(size=(max(1, m // 2), m)))
     elif kind == 'dupcol':
         X = rng.normal(size=(n, m)); X[:, -1] = X[:, 0]
     else: X = rng.normal(size=(n, m)) * np.logspace(-3, 3, m)
@@ -17,7 +19,7 @@ def gen(rng, kind, n, m):
 def cases(rng, tier, focus):
     reps = 6 if tier == 'quick' else 60
     for rep in range(reps):
-        for kind in ('tall', 'wide', 'rankdef', 'dupcol', 'scaled'):
+        for kind in ('tall', 'wide', 'rankdef', 'dupcol', 'scaled', 'rankdef-large', 'rankdef-small'):
             for meth in ('tikhonov', 'cutoff'):
                 for atype in ('absolute', 'relative'):
                     n = int(rng.choice([10, 13, 27])); m = int(rng.integers(2, 6))
@@ -28,7 +30,7 @@ def nontrivial(c): return (c['kind'], c['n'], c['m'], c['meth'], c['atype'], c['
 
 def rls(Xa, ya, alpha, meth, rcond):
     U, s, Vt = np.linalg.svd(Xa, full_matrices=False)
-    r = int(np.sum(s > rcond))
+    r = int(np.sum(s > rcond * s.max()))          # numerical rank: relative to the largest singular value
     if meth == 'tikhonov':
         return Vt.T[:, :r] @ (np.diag(s[:r] / (s[:r] ** 2 + alpha)) @ (U.T[:r] @ ya))
     q = min(r, int(np.sum(s > alpha)))
